@@ -87,6 +87,7 @@ class FnResult:
         self.calls = []      # (callee, node, {param: canon}, facts, {param: Elems|None}, {param: kind})
         self.returns = []    # (value node | None, St)
         self.yields = []     # (value node | None, St)
+        self.writes = []     # (path canon, data canon, node): `fh.write(data)` on a file opened for writing
         self.appends = {}    # list name -> [(elt node, St)]
         self.bad_lists = set()
 
@@ -104,6 +105,7 @@ class GuardFlow:
         self.entry = {}          # fn -> (facts over π tokens, {param: Elems}, {param: kind})
         self.results = {}
         self._foreign = None
+        self.slices, self.joins = {}, {}     # canonical key -> components
 
     # ---- naming ------------------------------------------------------------
     def canonical_call(self, call):
@@ -151,6 +153,30 @@ class GuardFlow:
         return f"«{name}@{getattr(node, 'lineno', 0)}.{getattr(node, 'col_offset', 0)}{tag}»"
 
     # ---- values ------------------------------------------------------------
+    PURE_CALLS = {"os.path.basename": "basename", "posixpath.basename": "basename"}
+    SAME_BYTES = ("memoryview", "bytes", "bytearray")
+    SANITISER = "_safe_join"
+
+    def pure(self, e):
+        """an expression whose value is determined by the values of the names in it (no call with an effect or an unknown result)"""
+        if isinstance(e, (ast.Name, ast.Constant)):
+            return True
+        if isinstance(e, ast.Attribute):
+            return self.pure(e.value)
+        if isinstance(e, ast.Subscript):
+            if isinstance(e.slice, ast.Constant):
+                return self.pure(e.value)
+            if isinstance(e.slice, ast.Slice) and e.slice.step is None:
+                return self.pure(e.value) and all(x is None or self.pure(x) for x in (e.slice.lower, e.slice.upper))
+            return False
+        if isinstance(e, ast.BinOp) and isinstance(e.op, (ast.Add, ast.Sub)):
+            return self.pure(e.left) and self.pure(e.right)
+        if isinstance(e, ast.Call) and not e.keywords and all(self.pure(a) for a in e.args):
+            c = self.canonical_call(e)
+            return (c in self.PURE_CALLS and len(e.args) == 1) or (c in self.SAME_BYTES and len(e.args) == 1) or (
+                c.split(".")[-1] == self.SANITISER and len(e.args) == 2)
+        return False
+
     def canon(self, e, st):
         if isinstance(e, ast.Name):
             return st.env.get(e.id) or f"g:{e.id}"
@@ -160,8 +186,24 @@ class GuardFlow:
             return repr(e.value)
         if isinstance(e, ast.Subscript) and isinstance(e.slice, ast.Constant):
             return f"{self.canon(e.value, st)}[{e.slice.value!r}]"
-        if isinstance(e, ast.Call) and self.canonical_call(e) in ("os.path.basename", "posixpath.basename") and len(e.args) == 1:
-            return f"basename({self.canon(e.args[0], st)})"
+        if isinstance(e, ast.Subscript) and isinstance(e.slice, ast.Slice) and e.slice.step is None and self.pure(e):
+            base = self.canon(e.value, st)
+            lo = self.canon(e.slice.lower, st) if e.slice.lower is not None else "0"
+            hi = self.canon(e.slice.upper, st) if e.slice.upper is not None else "end"
+            key = f"{base}[{lo}:{hi}]"
+            self.slices[key] = (base, lo, hi)
+            return key
+        if isinstance(e, ast.BinOp) and isinstance(e.op, (ast.Add, ast.Sub)) and self.pure(e):
+            return f"({self.canon(e.left, st)}{'+' if isinstance(e.op, ast.Add) else '-'}{self.canon(e.right, st)})"
+        if isinstance(e, ast.Call) and self.pure(e):
+            c = self.canonical_call(e)
+            if c in self.PURE_CALLS:
+                return f"{self.PURE_CALLS[c]}({self.canon(e.args[0], st)})"
+            if c in self.SAME_BYTES:
+                return self.canon(e.args[0], st)
+            key = f"safe_join({self.canon(e.args[0], st)},{self.canon(e.args[1], st)})"
+            self.joins[key] = (self.canon(e.args[0], st), self.canon(e.args[1], st))
+            return key
         if isinstance(e, ast.NamedExpr):
             return self.canon(e.value, st)
         return self.fresh("e", e)
@@ -255,6 +297,12 @@ class GuardFlow:
             g = _sub(f, mapping)
             if "«" not in "".join(g[1:]):
                 facts.add(g)
+        # how the components are computed from each other: ("is", "$1", "$0.filename"), ("is", "$2", "basename($1)")
+        for k, v in mapping.items():
+            others = {k2: v2 for k2, v2 in mapping.items() if k2 != k}
+            r = _sub(("is", k), others)[1]
+            if r != k and "«" not in r:
+                facts.add(("is", v, r))
         return Elems(arity, facts)
 
     def elements(self, e, st):
@@ -351,7 +399,19 @@ class GuardFlow:
 
     _TOK = re.compile(r"«[^»]*»")
 
+    NAME_OF = re.compile(r"^(«[^»]*»|π:[^.\[\]()]+)(\[\d+\])?\.(name|filename)$")
+
+    def own_name(self, f, facts):
+        return bool(self.NAME_OF.match(f)) or ("own-name", f) in facts or any(x[0] == "is" and x[1] == f and self.NAME_OF.match(x[2]) for x in facts)
+
+    def base_of(self, b, f, facts):
+        return b == f"basename({f})" or ("base-of", b, f) in facts or ("is", b, f"basename({f})") in facts
+
     def holds(self, fact, st):
+        if fact[0] == "member-name":
+            # the (file name, base name) pair is the member's own stored name and its os.path.basename -- nothing rewritten in between
+            f, b = fact[1], fact[2]
+            return self.own_name(f, st.facts) and self.base_of(b, f, st.facts)
         if fact[0] == "member-size-checked":
             # a size of the member this name belongs to was checked on every path: the checked value is (an attribute of) the object the
             # name was read from, or the name is a component of an element tuple one of whose sizes was checked
@@ -376,8 +436,17 @@ class GuardFlow:
                                        {p: self.elements(a, st) for p, a in amap.items()}, {p: self.kind(a, st) for p, a in amap.items()}))
             else:
                 self.cur.calls.append((q, call, None, st.facts, {}, {}))
-        # list mutation, recorded per list VALUE (any alias of it)
+        # bytes handed to a file opened for writing
         f = call.func
+        if isinstance(f, ast.Attribute) and f.attr in ("write", "writelines"):
+            wp = self.tok_wfile.get(self.canon(f.value, st)) or self.opened_for_write(f.value, st)
+            if wp is not None:
+                data = self.canon(call.args[0], st) if (f.attr == "write" and len(call.args) == 1) else self.fresh("e", call)
+                self.cur.writes.append((wp, data, call))
+        for a in list(call.args) + [k.value for k in call.keywords]:
+            if isinstance(a, ast.Name) and st.env.get(a.id) in self.tok_wfile and not (isinstance(f, ast.Attribute) and f.value is a):
+                self.cur.writes.append((self.tok_wfile[st.env[a.id]], self.fresh("e", call), call))    # the handle escapes: unknown bytes
+        # list mutation, recorded per list VALUE (any alias of it)
         if isinstance(f, ast.Attribute) and isinstance(f.value, ast.Name):
             tok = st.env.get(f.value.id) or f"g:{f.value.id}"
             if f.attr == "append" and len(call.args) == 1:
@@ -401,6 +470,16 @@ class GuardFlow:
         return self.tok_kind.get(self.canon(e, st))
 
     KINDS = {"zipfile.ZipFile": "zip", "tarfile.open": "tar", "tarfile.TarFile": "tar", "tarfile.TarFile.open": "tar"}
+
+    def opened_for_write(self, e, st):
+        """-> canonical path when `e` is open(path, <mode that can write>)"""
+        if isinstance(e, ast.Call) and self.canonical_call(e) in ("open", "io.open") and e.args:
+            mode = e.args[1] if len(e.args) > 1 else next((k.value for k in e.keywords if k.arg == "mode"), None)
+            if mode is None:
+                return None
+            if not isinstance(mode, ast.Constant) or any(ch in str(mode.value) for ch in "wax+"):
+                return self.canon(e.args[0], st)
+        return None
 
     def call_kind(self, e):
         if isinstance(e, ast.Call):
@@ -437,16 +516,14 @@ class GuardFlow:
             if amap is not None and fn_p in amap and bn_p in amap:
                 out.append((("not-skipped", self.canon(amap[fn_p], st), self.canon(amap[bn_p], st)), "dispatch", f"line {call.lineno}: member dispatch"))
                 out.append((("member-size-checked", self.canon(amap[fn_p], st)), "dispatch-size", f"line {call.lineno}: member dispatch"))
+                out.append((("member-name", self.canon(amap[fn_p], st), self.canon(amap[bn_p], st)), "dispatch-name", f"line {call.lineno}: member dispatch"))
             else:
                 out.append((("never", "dispatch-shape"), "dispatch", f"line {call.lineno}: member dispatch with unrecognised arguments"))
         return out
 
     # ---- statements -----------------------------------------------------------------
     def assign_name(self, name, value, st, node):
-        pure = isinstance(value, (ast.Name, ast.Attribute, ast.Constant)) or (
-            isinstance(value, ast.Call) and self.canonical_call(value) in ("os.path.basename", "posixpath.basename")) or (
-            isinstance(value, ast.Subscript) and isinstance(value.slice, ast.Constant))
-        if value is not None and pure:
+        if value is not None and self.pure(value):
             st.env[name] = self.canon(value, st)
             return
         tok = self.fresh(name, node)
@@ -459,6 +536,9 @@ class GuardFlow:
         k = self.call_kind(value)
         if k:
             self.tok_kind[tok] = k
+        wp = self.opened_for_write(value, st)
+        if wp is not None:
+            self.tok_wfile[tok] = wp
         self.tok_list.pop(tok, None)
         self.tok_elems.pop(tok, None)
         if (isinstance(value, ast.List) and not value.elts) or (isinstance(value, ast.Call) and dotted(value.func) == "list" and not value.args):
@@ -545,6 +625,9 @@ class GuardFlow:
             self.ev(s.value, st)
             if isinstance(s.target, ast.Name) and st.env.get(s.target.id):
                 self.cur.bad_lists.add(st.env[s.target.id])          # `L += ...` extends the list value in place
+            if isinstance(s.target, ast.Name) and isinstance(s.op, (ast.Add, ast.Sub)) and self.pure(s.value) and s.target.id in st.env:
+                st.env[s.target.id] = f"({st.env[s.target.id]}{'+' if isinstance(s.op, ast.Add) else '-'}{self.canon(s.value, st)})"
+                return st
             self.assign(s.target, None, st, s)
             return st
         if isinstance(s, ast.Expr):
@@ -601,6 +684,9 @@ class GuardFlow:
                         k = self.call_kind(it.context_expr)
                         if k:
                             self.tok_kind[tok] = k
+                        wp = self.opened_for_write(it.context_expr, st)
+                        if wp is not None:
+                            self.tok_wfile[tok] = wp
                     else:
                         self.assign(it.optional_vars, None, st, s)
             return self.block(s.body, st)
@@ -685,6 +771,12 @@ class GuardFlow:
             if g[0] == "within-limit":
                 # a size of this element was checked: every component of the element belongs to a size-checked member
                 inst.update(("size-checked", t) for t in toks)
+            if g[0] == "is":
+                if self.NAME_OF.match(g[2]):
+                    inst.add(("own-name", g[1]))
+                m = re.match(r"^basename\((.*)\)$", g[2])
+                if m:
+                    inst.add(("base-of", g[1], m.group(1)))
         st.facts = st.facts | frozenset(inst)
 
     # ---- one function ------------------------------------------------------------------
@@ -692,6 +784,7 @@ class GuardFlow:
         f = self.fns[q]
         ps = self.params(q)
         self.boolvals, self.tok_kind, self.tok_list, self.tok_elems = {}, {}, {}, {}
+        self.tok_wfile = {}
         self.local_elems = {}
         res = None
         for _pass in (0, 1):
@@ -737,7 +830,7 @@ class GuardFlow:
             return None
         self._in_progress.add(q)
         saved = (getattr(self, "cur", None), getattr(self, "boolvals", None), getattr(self, "tok_kind", None), getattr(self, "tok_list", None),
-                 getattr(self, "tok_elems", None), getattr(self, "local_elems", None))
+                 getattr(self, "tok_elems", None), getattr(self, "local_elems", None), getattr(self, "tok_wfile", None))
         try:
             res = self.analyse(q)
             bool_t, bool_f = None, None
@@ -772,7 +865,7 @@ class GuardFlow:
                    "mutates": {p for p in self.params(q) if f"π:{q}:{p}" in res.appends or f"π:{q}:{p}" in res.bad_lists}}
         finally:
             self._in_progress.discard(q)
-            self.cur, self.boolvals, self.tok_kind, self.tok_list, self.tok_elems, self.local_elems = saved
+            self.cur, self.boolvals, self.tok_kind, self.tok_list, self.tok_elems, self.local_elems, self.tok_wfile = saved
         self._summary[q] = out
         return out
 
@@ -818,6 +911,14 @@ class GuardFlow:
                     mapping = {c: f"π:{q}:{p}" for p, c in amap.items() if c.startswith(("«", "π:", "basename("))}
                     fs = frozenset(g for g in (_sub(f, mapping) for f in facts) if "«" not in "".join(g[1:]) and all(
                         ("π:" not in c) or f"π:{q}:" in c for c in g[1:]))
+                    extra = set()
+                    for p1, c1 in amap.items():
+                        if self.own_name(c1, facts):
+                            extra.add(("own-name", f"π:{q}:{p1}"))
+                        for p2, c2 in amap.items():
+                            if p1 != p2 and self.base_of(c2, c1, facts):
+                                extra.add(("base-of", f"π:{q}:{p2}", f"π:{q}:{p1}"))
+                    fs = fs | frozenset(extra)
                     facts_all = fs if facts_all is None else facts_all & fs
                 pel, pk = {}, {}
                 for p in ps:
@@ -842,6 +943,55 @@ class GuardFlow:
             for c in self.results[q].calls:
                 todo.append(c[0])
         return seen
+
+    def write_events(self, q, _depth=0, _stack=()):
+        """bytes written to files by `q` and the helpers it calls: [(path canon, data canon, description)] over q's own values / parameters"""
+        if q not in self.results or q in _stack or _depth > 5:
+            return []
+        out = [(p, d, f"line {n.lineno} in {q}: `{ast.unparse(n)}`") for p, d, n in self.results[q].writes]
+        for (callee, node, amap, _facts, _el, _k) in self.results[q].calls:
+            sub_events = self.write_events(callee, _depth + 1, _stack + (q,))
+            if not sub_events:
+                continue
+            mapping = {f"π:{callee}:{p}": c for p, c in (amap or {}).items()}
+            for p, d, desc in sub_events:
+                out.append((_sub(("", p), mapping)[1], _sub(("", d), mapping)[1], desc))
+        return out
+
+    def judged_writes(self):
+        """[(ok, description)] for every write event, judged in the outermost function that performs it: the bytes written for member M
+        (the path is _safe_join(base, M.filename)) are nothing or the slice [lo : lo + M.uncompressed] of a buffer"""
+        called = {c[0] for res in self.results.values() for c in res.calls}
+        out = []
+        for q in self.results:
+            if q in called:
+                continue
+            for path, data, desc in self.write_events(q):
+                m = re.match(r"^safe_join\((.*),(.*)\)$", path)
+                name = None
+                if m:
+                    # split at the top-level comma
+                    inner, depth_, cut = path[len("safe_join("):-1], 0, None
+                    for i, ch in enumerate(inner):
+                        depth_ += ch in "([" 
+                        depth_ -= ch in ")]"
+                        if ch == "," and depth_ == 0:
+                            cut = i
+                    name = inner[cut + 1:] if cut is not None else None
+                if name is None or not name.endswith(".filename"):
+                    out.append((False, desc + ": the path is not _safe_join(base, <member>.filename), cannot tell which member the bytes belong to"))
+                    continue
+                member = name[: -len(".filename")]
+                if data in ("b''", "b\"\""):
+                    out.append((True, desc))
+                    continue
+                ok = False
+                sm = re.match(r"^(.*)\[([^\[\]]*):([^\[\]]*)\]$", data)
+                if sm:
+                    lo, hi = sm.group(2), sm.group(3)
+                    ok = hi == f"({lo}+{member}.uncompressed)" or (lo == "0" and hi == f"{member}.uncompressed")
+                out.append((ok, desc + ("" if ok else f": the bytes written are `{data}`, not the slice [lo : lo + {member}.uncompressed] of the decompressed buffer")))
+        return out
 
     def sinks(self, root, kind):
         """[(function, node, fact, ok, desc)] of the needs of `kind` in the functions reachable from `root`"""
